@@ -10,6 +10,15 @@ Section Tie.
   Variable Pay : Type.
   Variable empty_pay : Pay.
   Variable Ent : Type.
+  Variable clock0 : Ent.
+  Variable spent : Ent -> Pay -> option Ent.
+
+  Theorem src_timer_includes_is_timer_includes (s : string) : src_timer_includes s = timer_includes s.
+  Proof. reflexivity. Qed.
+
+  Theorem src_timer_call_is_timer_call (a : action Pay) (s : rst Ent Pay) :
+    src_timer_call Pay Ent clock0 spent a s = timer_call Ent Pay clock0 spent a s.
+  Proof. destruct s as [st tr]. reflexivity. Qed.
 
   Theorem src_bound_names_is_bound_names (c : component Ent Pay) :
     src_get_bound_names Ent (c_default c) (src_adapter_binds (c_binds c)) = bound_names Ent Pay c.
